@@ -11,6 +11,7 @@ import (
 	"io"
 	"os"
 	"path"
+	"path/filepath"
 	"sort"
 	"strings"
 	"sync"
@@ -106,17 +107,11 @@ func (g *registry) logLen() int {
 	return len(g.log)
 }
 
+// logFrom returns the requests logged since position i, in arrival order.
 func (g *registry) logFrom(i int) [][2]int64 {
 	g.mu.Lock()
 	defer g.mu.Unlock()
-	out := append([][2]int64{}, g.log[i:]...)
-	sort.Slice(out, func(a, b int) bool {
-		if out[a][0] != out[b][0] {
-			return out[a][0] < out[b][0]
-		}
-		return out[a][1] < out[b][1]
-	})
-	return out
+	return append([][2]int64{}, g.log[i:]...)
 }
 
 func (g *registry) set(f func()) {
@@ -129,6 +124,7 @@ func (g *registry) set(f func()) {
 // persist tracking of the directory caches (hook of C11 in cache/: scheduling points of the persist closure)
 
 type persistCtl struct {
+	root     string
 	mu       sync.Mutex
 	inflight int
 	hold     bool
@@ -156,6 +152,15 @@ func init() {
 	}
 }
 
+func (p *persistCtl) wipDirs() []string {
+	var out []string
+	for _, c := range []string{"httpcache", "fscache"} {
+		ds, _ := filepath.Glob(filepath.Join(p.root, c, "*", "wip"))
+		out = append(out, ds...)
+	}
+	return out
+}
+
 func (p *persistCtl) setHold(h bool) {
 	p.mu.Lock()
 	defer p.mu.Unlock()
@@ -177,6 +182,16 @@ func (p *persistCtl) settle() bool {
 		p.mu.Lock()
 		n := p.inflight
 		p.mu.Unlock()
+		// every Add creates its work-in-progress file at once and the persist closure renames (or removes) it at
+		// its end: a closure that was spawned but has not reached its first scheduling point shows up here
+		if n == 0 {
+			for _, d := range p.wipDirs() {
+				if es, err := os.ReadDir(d); err == nil && len(es) > 0 {
+					n = len(es)
+					break
+				}
+			}
+		}
 		if n == 0 {
 			stable++
 			if stable >= 3 {
@@ -315,6 +330,8 @@ type world struct {
 	pfBodyOK  bool         // a prefetch body returned nil
 	pfBodyRan bool
 	held      bool
+	bgRan     bool
+	bgOK      bool
 }
 
 type problem struct {
@@ -334,8 +351,17 @@ var storeFactory = map[string]metadata.Store{"memory": memorymetadata.NewReader}
 
 func cleanName(n string) string { return strings.TrimPrefix(path.Clean("/"+n), "/") }
 
+func dbg(t0 time.Time, what string) {
+	if os.Getenv("VERIF_DEBUG") == "2" {
+		fmt.Fprintf(os.Stderr, "  %s at %v\n", what, time.Since(t0))
+	}
+}
+
 func setup(c *Case, obs *Obs) (*world, error) {
+	t0 := time.Now()
+	defer func() { dbg(t0, "setup done") }()
 	b, err := buildLayer(c)
+	dbg(t0, "built")
 	if err != nil {
 		return nil, fmt.Errorf("build: %w", err)
 	}
@@ -345,6 +371,7 @@ func setup(c *Case, obs *Obs) (*world, error) {
 		return nil, err
 	}
 	pctl.setHold(false)
+	pctl.root = w.tmp
 	w.tm = task.NewBackgroundTaskManager(2, 2*time.Millisecond)
 	cfg := config.Config{
 		HTTPCacheType:     c.HTTPCache,
@@ -375,6 +402,7 @@ func setup(c *Case, obs *Obs) (*world, error) {
 	if err != nil {
 		return nil, fmt.Errorf("resolve: %w", err)
 	}
+	dbg(t0, "resolved")
 	if c.SkipVerify {
 		w.l.SkipVerify()
 	} else if err := w.l.Verify(b.tocDigest); err != nil {
@@ -512,6 +540,8 @@ func setup(c *Case, obs *Obs) (*world, error) {
 }
 
 func (w *world) teardown() {
+	t0 := time.Now()
+	defer func() { dbg(t0, "teardown done") }()
 	w.reg.set(func() { w.reg.stall = false; w.reg.off = false; w.reg.failFrom = -1 })
 	select {
 	case <-w.reg.gate:
@@ -592,6 +622,9 @@ func (w *world) readFiles(sel func(*fileInfo) bool, buf int) (errs int, grew boo
 		if step <= 0 {
 			step = fi.Size
 		}
+		if step < 64 && fi.Size > 2000 {
+			step = 777 // byte-wise reads only on small files
+		}
 		for off := int64(0); off < fi.Size; off += step {
 			l := step
 			if off+l > fi.Size {
@@ -600,6 +633,9 @@ func (w *world) readFiles(sel func(*fileInfo) bool, buf int) (errs int, grew boo
 			p := make([]byte, l)
 			m, err := ra.ReadAt(p, off)
 			if err != nil && err != io.EOF || int64(m) != l {
+				if os.Getenv("VERIF_DEBUG") != "" {
+					fmt.Fprintf(os.Stderr, "read %s off=%d len=%d: n=%d err=%v\n", fi.name, off, l, m, err)
+				}
 				failed = true
 				break
 			}
@@ -645,6 +681,7 @@ func (w *world) afterPrefetchBody(res string, out *OpOut) {
 	w.pfBodyRan = true
 	w.pfBodyOK = res == "ok"
 	out.Reqs = w.reg.logFrom(w.pfMark)
+	out.PfSize = w.l.Info().PrefetchSize
 	if !w.held {
 		pctl.settle()
 		out.Keys = w.fsKeys()
@@ -669,12 +706,14 @@ func (w *world) checkPrefetchTraffic(reqs [][2]int64, res string) {
 	if want > size {
 		want = size
 	}
+	haveLM := false
 	if id, _, err := mr.GetChild(mr.RootID(), estargz.PrefetchLandmark); err == nil {
 		off, err := mr.GetOffset(id)
 		if err != nil {
 			return
 		}
 		want = off
+		haveLM = true
 	}
 	if want < 0 {
 		want = 0
@@ -687,9 +726,14 @@ func (w *world) checkPrefetchTraffic(reqs [][2]int64, res string) {
 	if limit > size {
 		limit = size
 	}
-	for _, r := range reqs {
-		if r[0] < 0 || r[1] <= 0 || r[0]+r[1] > limit {
-			w.bad("Prefetch requested [%d,+%d) outside the target range [0,%d) (rounded to %d)", r[0], r[1], want, limit)
+	if haveLM {
+		// everything prioritized lies before the landmark: neither the download nor the decompression of the
+		// prioritized files may touch anything behind it. (Without a landmark, files that start inside the
+		// configured size are decompressed completely, which legitimately reads behind it.)
+		for _, r := range reqs {
+			if r[0] < 0 || r[1] <= 0 || r[0]+r[1] > limit {
+				w.bad("Prefetch requested [%d,+%d) outside the target range [0,%d) (rounded to %d)", r[0], r[1], want, limit)
+			}
 		}
 	}
 	if res != "ok" {
@@ -713,12 +757,13 @@ func (w *world) checkPrefetchTraffic(reqs [][2]int64, res string) {
 func (w *world) run(obs *Obs) {
 	c := w.c
 	pre := false
+	t00 := time.Now()
 	for i := range c.Ops {
 		o := c.Ops[i]
 		var out OpOut
 		switch o.Op {
 		case "hold":
-			if c.FSCache != "memory" || c.HTTPCache != "memory" {
+			if c.dirCache() && !c.SyncAdd {
 				pctl.setHold(true)
 				w.held = true
 			}
@@ -821,6 +866,9 @@ func (w *world) run(obs *Obs) {
 			close(w.reg.gate)
 			res, _ := w.collectPrefetch()
 			w.reg.set(func() { w.reg.gate = make(chan struct{}); w.reg.failFrom = -1 })
+			for len(w.reg.hitCh) > 0 {
+				<-w.reg.hitCh
+			}
 			out.Res = res
 			w.afterPrefetchBody(res, &out)
 		case "wait":
@@ -903,7 +951,7 @@ func (w *world) run(obs *Obs) {
 				wg.Add(1)
 				go func() {
 					defer wg.Done()
-					for k := 0; ; k++ {
+					for k := 0; k < 6; k++ {
 						select {
 						case <-stop:
 							return
@@ -912,7 +960,7 @@ func (w *world) run(obs *Obs) {
 						w.tm.DoPrioritizedTask()
 						time.Sleep(300 * time.Microsecond)
 						w.tm.DonePrioritizedTask()
-						time.Sleep(time.Duration(3+k%4) * time.Millisecond)
+						time.Sleep(time.Duration(1+k%3) * time.Millisecond)
 					}
 				}()
 			}
@@ -960,6 +1008,7 @@ func (w *world) run(obs *Obs) {
 			out.Res = "none"
 		}
 		obs.Outs = append(obs.Outs, out)
+		dbg(t00, o.Op)
 	}
 	if !pre {
 		obs.Pre = w.httpChunks()
